@@ -7,6 +7,28 @@ import sys
 import traceback
 
 
+def snapshot_arrays(args, kwargs):
+    """`before` hook: copies of the ndarray arguments (index -> copy), so that the oracle judges the values the callee was
+    given and an in-place modification of an argument is noticed"""
+    import numpy as np
+
+    return {i: a.copy() for i, a in enumerate(args) if isinstance(a, np.ndarray)}
+
+
+def check_unmutated(ctx, where, args, snap, index=1):
+    """returns the argument as it was before the call; reports a violation if the callee changed it in place"""
+    import numpy as np
+
+    arg = args[index]
+    if not snap or index not in snap:
+        return arg
+    before = snap[index]
+    same = before.shape == arg.shape and bool(np.all((before == arg) | ((before != before) & (arg != arg))))
+    if not same:
+        ctx.violation(f"{where} modifies its array argument in place", {"argument_before": before, "argument_after": arg}, before, arg)
+    return before
+
+
 class Probe:
     """A set of installed wrappers that can be removed again.  `busy` is the re-entrancy flag: while an oracle
     itself calls library code the monitors stay silent."""
